@@ -9,6 +9,7 @@ import TrVerif.Props.C09Complete
 import TrVerif.Props.C04
 import TrVerif.Props.C03
 import TrVerif.Props.Attained
+import TrVerif.Props.NoExc
 namespace Tr
 
 def nvDs : Dataset :=
